@@ -8,7 +8,7 @@ import numpy as np
 
 from solvers import solve_with_batch, COMBOS, Prepared, dense_design, solver_cells
 
-UNITS = ["SolverStruct", "BatchGen", "DesignGen", "ShapesSolvers"]
+UNITS = ["SolverStruct", "BatchGen", "DesignGen", "ShapesSolvers", "SkelSolvers"]
 PROPS = ["props/C06.v"]
 ASSUMPTIONS = ["LAPACK posv: info = 0 -> A x = b (conformance-checked on every call made by this run); backward-error accuracy is a tolerance check (1e-7 relative)"]
 
